@@ -52,6 +52,10 @@ EXPLANATION += (
     ' Round 5: settings are forwarded at every call (R-FWD/parameter-forwarded); np.maximum floors are recognised by the sign analysis.'
 )
 
+EXPLANATION += (
+    ' Round 6: the gene list handed to the reference-marker stage becomes positions of the reference gene table (R-PROV/gene-list, rule of C11).'
+)
+
 RULE_TEXT = (
     "one obligation per (file kind, reader, required dataset), per "
     "provenance relation; non-trivial when the reader requires at least "
@@ -205,6 +209,10 @@ def check(ctx):
     check_counter_capacity(ctx)
     # settings this property depends on are handed down every call
     # chain, never left to a callee's default (sa/rules/forwarding.py)
+    # the gene list a later stage hands to the reference-marker stage is
+    # turned into positions of the *reference* gene table (rule of C11)
+    from .C11 import check_gene_list
+    check_gene_list(ctx)
     from ..rules.forwarding import check_forwarding
     check_forwarding(ctx, {'taxonomy_tree', 'precomputed_stats_path', 'normalization'})
 
